@@ -535,10 +535,11 @@ async fn control_common<E: std::fmt::Debug>(app: Rc<App>, msg: Control<E>) -> Co
     let call = app.next_call();
     let (what, stop, detail) = classify_stop(&msg);
     let is_stop = stop.is_some();
+    let slow = app.wr_on_gated.get() && what == "wr(true)";
     app.log(Ev::CtlEnter { call, what, stop, detail });
     let guard = DropGuard::new(&app, GateKind::Ctl, call, 0);
     let plan = app.take_ctl_plan(is_stop);
-    if plan.gated {
+    if plan.gated || slow {
         let g = app.gate(GateKind::Ctl, call);
         g.wait().await;
     }
